@@ -284,6 +284,10 @@ def _bool_eval(b, atom_of_call, max_steps=200):
     return names, out
 
 
+# the bit of a setting: `setting.bit()` or the same thing written out, `1 << (setting as u8)`
+BIT = r"(?:bit\(\w+\)|Shl\(1,[^,]*discr\(\w+\)[^,]*\))"
+
+
 def _storage(fx, res, rule):
     spec = [
         ("clap_builder::builder::arg::Arg::setting", [("ArgFlags::set", "self.settings")]),
@@ -341,11 +345,12 @@ def _storage(fx, res, rule):
             return out
         fl = flags.split("::")[1]
         w = word_writes(st)
-        res.check(len(w) == 1 and w[0][0] == "BitOr" and re.fullmatch(r"bit\(\w+\)", w[0][2]) is not None, rule, "storage|%s::set" % fl, st.where(), "set: word |= bit(s)", "%s::set is %s, not `word |= bit(setting)`" % (fl, w))
+        res.check(len(w) == 1 and w[0][0] == "BitOr" and re.fullmatch(BIT, w[0][2]) is not None, rule, "storage|%s::set" % fl, st.where(), "set: word |= bit(s)", "%s::set is %s, not `word |= bit(setting)`" % (fl, w))
         w = word_writes(un)
-        res.check(len(w) == 1 and w[0][0] == "BitAnd" and re.fullmatch(r"Not\(bit\(\w+\)\)", w[0][2]) is not None, rule, "storage|%s::unset" % fl, un.where(), "unset: word &= !bit(s)", "%s::unset is %s, not `word &= !bit(setting)`" % (fl, w))
+        res.check(len(w) == 1 and w[0][0] == "BitAnd" and re.fullmatch(r"Not\(" + BIT + r"\)", w[0][2]) is not None, rule, "storage|%s::unset" % fl, un.where(), "unset: word &= !bit(s)", "%s::unset is %s, not `word &= !bit(setting)`" % (fl, w))
         e = expr(isb, 0)
-        res.check(re.fullmatch(r"Ne\(BitAnd\(self\.0,bit\(\w+\)\),0\)|Eq\(BitAnd\(self\.0,(bit\(\w+\))\),\1\)|Ne\(0,BitAnd\(self\.0,bit\(\w+\)\)\)|Ne\(BitAnd\(bit\(\w+\),self\.0\),0\)", e) is not None, rule, "storage|%s::is_set" % fl, isb.where(), "is_set: word & bit(s) != 0", "%s::is_set is %s, not `word & bit(setting) != 0`" % (fl, e[:100]))
+        e_n = re.sub(BIT, "BIT", e)
+        res.check(re.fullmatch(r"Ne\(BitAnd\(self\.0,BIT\),0\)|Eq\(BitAnd\(self\.0,BIT\),BIT\)|Ne\(0,BitAnd\(self\.0,BIT\)\)|Ne\(BitAnd\(BIT,self\.0\),0\)|Eq\(BitAnd\(BIT,self\.0\),BIT\)", e_n) is not None, rule, "storage|%s::is_set" % fl, isb.where(), "is_set: word & bit(s) != 0", "%s::is_set is %s, not `word & bit(setting) != 0`" % (fl, e[:100]))
         e = expr(bit, 0)
         res.check(re.fullmatch(r"Shl\(1,(Cast\()?discr\(self\)\)?( as \w+)?\)?", e) is not None or re.fullmatch(r"Shl\(1,[^,]*discr\(self\)[^,]*\)", e) is not None, rule, "storage|%s::bit" % enum.split("::")[1], bit.where(), "bit = 1 << discriminant",
                   "%s::bit is %s, not `1 << (self as u8)`: two settings can share a bit" % (enum.split("::")[1], e[:100]))
